@@ -217,6 +217,21 @@ def check(ctx):
         ctx.require(len(cs) == 1 and all(fin.dominates(cs[0].bb, r) for r in fin.returns), "R-MUST", "finalize:" + c, "finalize always runs %s" % c, "finalize no longer (always) runs %s" % c)
     b = fin.calls_to("ValidatorErrorBuilder::build")
     ctx.require(len(b) == 1 and lib.err_propagates(fin, b[0]) or (len(b) == 1 and any(s[0] == "call" and s[3] is b[0] for s in walk(Prov(fin).local(0)))), "R-MUST", "finalize:returns-built", "finalize returns the built error list", "finalize does not return the built errors")
+    # every recorded use is judged: the deferred uses are kept in MultiMaps (one name -> several spans);
+    # `MultiMap::iter()` yields only the FIRST span per name, `iter_all()` yields all of them.  A finalize check that
+    # walks a multi-valued map with `iter()` silently skips every later use of a name whose first use is fine.
+    ctx.clause("R-COVER finalize judges every deferred use: no check walks a name->spans MultiMap with the first-value-only iterator")
+    n_walk = 0
+    for c in checks:
+        f = F.fn("validator::ValidatorErrorBuilder::" + c)
+        for f_, cc, p_ in lib.family_calls(F, f, lambda x: "multimap::MultiMap" in x.path and x.path.split("::")[-1] in ("iter", "iter_mut", "iter_all", "iter_all_mut")):
+            n_walk += 1
+            first_only = cc.path.split("::")[-1] in ("iter", "iter_mut")
+            fld = [x[2] for x in walk(p_.operand(cc.args[0])) if x[0] == "field"]
+            ctx.require(not first_only, "R-COVER", "finalize:all-uses:" + c, "%s walks %s with iter_all" % (c, fld[:1]),
+                        "%s walks the multi-valued map %s with MultiMap::iter(), which yields only the first recorded span of each name: later uses of the same name are never judged"
+                        % (c, fld[:1]), sample={"check": c, "map": fld[:1]})
+    ctx.floor("R-COVER", "MultiMap walks in finalize checks", n_walk, 3)
     mn = F.fn("validator::VariableValidator::met_next")
     ins = [show(Prov(mn).operand(c.args[0])) for c in mn.calls if c.path.endswith("::insert")]
     ctx.require(any("unresolved_iterables" in x for x in ins) and any("multiple_next_candidates" in x for x in ins), "R-MUST", "met_next:registers",
